@@ -118,8 +118,17 @@ Definition p_exists (fs : node) (p : path) : ex3 :=
   | KTooLong => ExRaise
   | _ => ExFalse
   end.
+(* pathlib.Path.is_symlink(): S_ISLNK(lstat) -- the LAST component is not followed, so a dangling link, a link
+   below which stat gives ENOTDIR and the first link of a chain of more than 40 are all links; a missing
+   path is not (ENOENT/ENOTDIR/ELOOP of lstat are swallowed -> False, ENAMETOOLONG propagates) *)
+Definition p_lstat_link (fs : node) (p : path) : ex3 :=
+  match klstat fs p with
+  | KFound _ (NLink _) => ExTrue
+  | KTooLong => ExRaise
+  | _ => ExFalse
+  end.
 Definition p_is_symlink (fs : node) (p : path) : bool :=
-  match klstat fs p with KFound _ (NLink _) => true | _ => false end.
+  match p_lstat_link fs p with ExTrue => true | _ => false end.
 Definition p_is_dir (fs : node) (p : path) : bool :=
   match kstat fs p with KFound _ (NDir _) => true | _ => false end.
 (* bytes read through open(p) (links followed) *)
